@@ -283,3 +283,224 @@ Proof. intros H. exact (pval_text _ _ _ _ _ (PV_value_at _ _ _ _ H)). Qed.
 (* spec_depth_mono *)
 Lemma tight_depth_mono d d' s : tight_at d s = true -> d' <= d -> tight_at d' s = true.
 Proof. intros H Hd. destruct (tight_PV _ _ H) as [c Hc]. exact (PV_tight _ _ _ (PV_depth _ _ _ _ _ Hc Hd)). Qed.
+
+(* ------------------------------------------------------------------------- *)
+(* Part 4: prefix extension *)
+
+Definition delim (x : N) : Prop := x = 44 \/ x = 93 \/ x = 125.
+(* a continuation that cannot be mistaken for more of the value: empty, or starting with , ] } *)
+Definition nice (r : bytes) : Prop := match r with [] => True | x :: _ => delim x end.
+
+Lemma delim_facts x : delim x ->
+  is_ws x = false /\ is_digit x = false /\ (x =? 45) = false /\ (x =? 46) = false /\
+  ((x =? 43) || (x =? 45)) = false /\ ((x =? 101) || (x =? 69)) = false.
+Proof. intros [-> | [-> | ->]]; repeat split; reflexivity. Qed.
+
+Lemma pstr_ext_len m : forall s b r0 r, (length s <= m)%nat -> pstr s = Some (b, r0) -> pstr (s ++ r) = Some (b, r0 ++ r).
+Proof.
+  induction m as [|m IH]; intros s b r0 r Hl H.
+  - destruct s; [discriminate | cbn in Hl; lia].
+  - destruct s as [|c s']; [discriminate|]. cbn [length] in Hl. cbn [app]. cbn [pstr] in H |- *.
+    destruct (sclass_of c).
+    + injection H as <- <-. reflexivity.
+    + destruct s' as [|e r1]; [discriminate|]. cbn [length] in Hl. cbn [app].
+      destruct (eclass_of e).
+      * destruct (pstr r1) as [[b' r']|] eqn:Ep; [|discriminate]. injection H as <- <-.
+        rewrite (IH r1 b' r' r ltac:(lia) Ep). reflexivity.
+      * destruct r1 as [|h1 [|h2 [|h3 [|h4 r2]]]]; try discriminate. cbn [length] in Hl. cbn [app].
+        destruct (is_hex h1 && is_hex h2 && is_hex h3 && is_hex h4); [|discriminate].
+        destruct (pstr r2) as [[b' r']|] eqn:Ep; [|discriminate]. injection H as <- <-.
+        rewrite (IH r2 b' r' r ltac:(lia) Ep). reflexivity.
+      * discriminate.
+    + discriminate.
+    + destruct (pstr s') as [[b' r']|] eqn:Ep; [|discriminate]. injection H as <- <-.
+      rewrite (IH s' b' r' r ltac:(lia) Ep). reflexivity.
+Qed.
+
+Lemma pstr_ext s b r0 r : pstr s = Some (b, r0) -> pstr (s ++ r) = Some (b, r0 ++ r).
+Proof. apply (pstr_ext_len (length s)). apply le_n. Qed.
+
+Lemma strip_prefix_ext p : forall s r0 r, strip_prefix p s = Some r0 -> strip_prefix p (s ++ r) = Some (r0 ++ r).
+Proof.
+  induction p as [|x p IH]; intros s r0 r H; cbn [strip_prefix] in H |- *.
+  - injection H as <-. reflexivity.
+  - destruct s as [|y s']; [discriminate|]. cbn [app]. destruct (x =? y); [|discriminate]. exact (IH _ _ _ H).
+Qed.
+
+Section Ext.
+  Variable r : bytes.
+  Hypothesis Hr : nice r.
+
+  Lemma split_ws_ext s : forall w r0, split_ws s = (w, r0) -> split_ws (s ++ r) = (w, r0 ++ r).
+  Proof.
+    induction s as [|c s IH]; intros w r0 H; cbn [split_ws] in H.
+    - injection H as <- <-. cbn [app]. destruct r as [|x r']; [reflexivity|].
+      apply split_ws_nows. apply (delim_facts x Hr).
+    - cbn [app split_ws]. destruct (is_ws c).
+      + destruct (split_ws s) as [w' r'] eqn:E. injection H as <- <-. rewrite (IH _ _ eq_refl). reflexivity.
+      + injection H as <- <-. reflexivity.
+  Qed.
+
+  Lemma tk_ext s t r0 : tk s = (t, r0) -> t <> TEnd -> tk (s ++ r) = (t, r0 ++ r).
+  Proof.
+    destruct s as [|c s']; cbn [tk app]; intros H Hn; injection H as <- <-; [contradiction|reflexivity].
+  Qed.
+
+  Lemma digits_ext s : forall d r0, digits s = (d, r0) -> digits (s ++ r) = (d, r0 ++ r).
+  Proof.
+    induction s as [|c s IH]; intros d r0 H; cbn [digits] in H.
+    - injection H as <- <-. cbn [app]. destruct r as [|x r']; [reflexivity|].
+      cbn [digits]. destruct (delim_facts x Hr) as (F1 & F2 & F3 & F4 & F5 & F6). rewrite F2. reflexivity.
+    - cbn [app digits]. destruct (is_digit c).
+      + destruct (digits s) as [d' r'] eqn:E. injection H as <- <-. rewrite (IH _ _ eq_refl). reflexivity.
+      + injection H as <- <-. reflexivity.
+  Qed.
+
+  Lemma p_sign_ext s sg s1 : p_sign s = (sg, s1) -> p_sign (s ++ r) = (sg, s1 ++ r).
+  Proof.
+    unfold p_sign. destruct s as [|c s']; cbn [app].
+    - intros H; injection H as <- <-. destruct r as [|x r']; [reflexivity|].
+      destruct (delim_facts x Hr) as (F1 & F2 & F3 & F4 & F5 & F6). rewrite F3. reflexivity.
+    - destruct (c =? 45); intros H; injection H as <- <-; reflexivity.
+  Qed.
+
+  Lemma p_int_ext s ip s2 : p_int s = Some (ip, s2) -> p_int (s ++ r) = Some (ip, s2 ++ r).
+  Proof.
+    unfold p_int. destruct s as [|c s']; [discriminate|]. cbn [app].
+    destruct (c =? 48); [intros H; injection H as <- <-; reflexivity|].
+    destruct (is_digit c); [|discriminate].
+    destruct (digits s') as [d r'] eqn:E. rewrite (digits_ext _ _ _ E). intros H; injection H as <- <-. reflexivity.
+  Qed.
+
+  Lemma p_frac_ext s fp s3 : p_frac s = Some (fp, s3) -> p_frac (s ++ r) = Some (fp, s3 ++ r).
+  Proof.
+    unfold p_frac. destruct s as [|c s']; cbn [app].
+    - intros H; injection H as <- <-. destruct r as [|x r']; [reflexivity|].
+      destruct (delim_facts x Hr) as (F1 & F2 & F3 & F4 & F5 & F6). rewrite F4. reflexivity.
+    - destruct (c =? 46).
+      + destruct (digits s') as [d r'] eqn:E. rewrite (digits_ext _ _ _ E).
+        destruct d; [discriminate|]. intros H; injection H as <- <-. reflexivity.
+      + intros H; injection H as <- <-. reflexivity.
+  Qed.
+
+  Lemma p_esign_ext s sg s1 : p_esign s = (sg, s1) -> p_esign (s ++ r) = (sg, s1 ++ r).
+  Proof.
+    unfold p_esign. destruct s as [|c s']; cbn [app].
+    - intros H; injection H as <- <-. destruct r as [|x r']; [reflexivity|].
+      destruct (delim_facts x Hr) as (F1 & F2 & F3 & F4 & F5 & F6). rewrite F5. reflexivity.
+    - destruct ((c =? 43) || (c =? 45)); intros H; injection H as <- <-; reflexivity.
+  Qed.
+
+  Lemma p_exp_ext s ep s4 : p_exp s = Some (ep, s4) -> p_exp (s ++ r) = Some (ep, s4 ++ r).
+  Proof.
+    unfold p_exp. destruct s as [|c s']; cbn [app].
+    - intros H; injection H as <- <-. destruct r as [|x r']; [reflexivity|].
+      destruct (delim_facts x Hr) as (F1 & F2 & F3 & F4 & F5 & F6). rewrite F6. reflexivity.
+    - destruct ((c =? 101) || (c =? 69)).
+      + destruct (p_esign s') as [sg r1] eqn:Es. rewrite (p_esign_ext _ _ _ Es).
+        destruct (digits r1) as [d r'] eqn:E. rewrite (digits_ext _ _ _ E).
+        destruct d; [discriminate|]. intros H; injection H as <- <-. reflexivity.
+      + intros H; injection H as <- <-. reflexivity.
+  Qed.
+
+  Lemma pnum_ext s n r0 : pnum s = Some (n, r0) -> pnum (s ++ r) = Some (n, r0 ++ r).
+  Proof.
+    unfold pnum. destruct (p_sign s) as [sg s1] eqn:E1. rewrite (p_sign_ext _ _ _ E1).
+    destruct (p_int s1) as [[ip s2]|] eqn:E2; [|discriminate]. rewrite (p_int_ext _ _ _ E2).
+    destruct (p_frac s2) as [[fp s3]|] eqn:E3; [|discriminate]. rewrite (p_frac_ext _ _ _ E3).
+    destruct (p_exp s3) as [[ep s4]|] eqn:E4; [|discriminate]. rewrite (p_exp_ext _ _ _ E4).
+    intros H; injection H as <- <-. reflexivity.
+  Qed.
+
+  Lemma pnum_first x s n r0 : pnum (x :: s) = Some (n, r0) -> x = 45 \/ 48 <= x <= 57.
+  Proof.
+    unfold pnum. cbn [p_sign]. destruct (x =? 45) eqn:D; [apply N.eqb_eq in D; auto|].
+    unfold p_int. destruct (x =? 48) eqn:F; [apply N.eqb_eq in F; intros _; right; lia|].
+    destruct (is_digit x) eqn:G; [apply is_digit_rng in G; auto | discriminate].
+  Qed.
+
+  Lemma pscalar_ext s c r0 : pscalar s = Some (c, r0) -> pscalar (s ++ r) = Some (c, r0 ++ r).
+  Proof.
+    unfold pscalar. intros H.
+    destruct (strip_prefix lit_true s) as [r1|] eqn:E1.
+    { injection H as <- <-. rewrite (strip_prefix_ext _ _ _ r E1). reflexivity. }
+    destruct (strip_prefix lit_false s) as [r2|] eqn:E2.
+    { injection H as <- <-. rewrite (strip_prefix_ext _ _ _ r E2).
+      apply strip_prefix_sound in E2. subst s. reflexivity. }
+    destruct (strip_prefix lit_null s) as [r3|] eqn:E3.
+    { injection H as <- <-. rewrite (strip_prefix_ext _ _ _ r E3).
+      apply strip_prefix_sound in E3. subst s. reflexivity. }
+    destruct (pnum s) as [[n r4]|] eqn:E4; [|discriminate]. injection H as <- <-.
+    rewrite (pnum_ext _ _ _ E4).
+    destruct s as [|x s']; [discriminate E4|]. pose proof (pnum_first _ _ _ _ E4) as Hx.
+    cbn [app strip_prefix lit_true lit_false lit_null].
+    replace (116 =? x) with false by (symmetry; apply N.eqb_neq; lia).
+    replace (102 =? x) with false by (symmetry; apply N.eqb_neq; lia).
+    replace (110 =? x) with false by (symmetry; apply N.eqb_neq; lia).
+    reflexivity.
+  Qed.
+
+  Lemma pelems_nil f d w : pelems f d w [] = None.
+  Proof. destruct f as [|[|f]]; reflexivity. Qed.
+  Lemma pmems_nil f d w : pmems f d w [] = None.
+  Proof. destruct f; reflexivity. Qed.
+
+  Lemma parser_ext f :
+    (forall d s c r0, pval f d s = Some (c, r0) -> pval f d (s ++ r) = Some (c, r0 ++ r)) /\
+    (forall d w s es r0, pelems f d w s = Some (es, r0) -> pelems f d w (s ++ r) = Some (es, r0 ++ r)) /\
+    (forall d w s ms r0, pmems f d w s = Some (ms, r0) -> pmems f d w (s ++ r) = Some (ms, r0 ++ r)).
+  Proof.
+    induction f as [|f (IHv & IHe & IHm)]; [repeat split; intros; discriminate|].
+    split; [|split].
+    - intros d s c r0 H. cbn [pval] in H |- *.
+      destruct (tk s) as [t s0] eqn:Et. destruct t; try discriminate; rewrite (tk_ext _ _ _ Et) by discriminate.
+      + destruct (pstr s0) as [[b r']|] eqn:Ep; [|discriminate]. injection H as <- <-.
+        rewrite (pstr_ext _ _ _ r Ep). reflexivity.
+      + destruct (max_depth <=? d); [discriminate|].
+        destruct (split_ws s0) as [w s1] eqn:Ew. rewrite (split_ws_ext _ _ _ Ew).
+        destruct (tk s1) as [t1 s2] eqn:Et1.
+        assert (Hend : t1 = TEnd -> False).
+        { intros ->. apply tk_inv in Et1 as [-> ->]. rewrite pelems_nil in H. discriminate. }
+        destruct t1; try (exfalso; apply Hend; reflexivity); rewrite (tk_ext _ _ _ Et1) by discriminate;
+          try (destruct (pelems f (N.succ d) w s1) as [[es r3]|] eqn:Ee; [|discriminate]; injection H as <- <-;
+               rewrite (IHe _ _ _ _ _ Ee); reflexivity).
+        injection H as <- <-. reflexivity.
+      + destruct (max_depth <=? d); [discriminate|].
+        destruct (split_ws s0) as [w s1] eqn:Ew. rewrite (split_ws_ext _ _ _ Ew).
+        destruct (tk s1) as [t1 s2] eqn:Et1.
+        assert (Hend : t1 = TEnd -> False).
+        { intros ->. apply tk_inv in Et1 as [-> ->]. rewrite pmems_nil in H. discriminate. }
+        destruct t1; try (exfalso; apply Hend; reflexivity); rewrite (tk_ext _ _ _ Et1) by discriminate;
+          try (destruct (pmems f (N.succ d) w s1) as [[ms r3]|] eqn:Ee; [|discriminate]; injection H as <- <-;
+               rewrite (IHm _ _ _ _ _ Ee); reflexivity).
+        injection H as <- <-. reflexivity.
+      + exact (pscalar_ext _ _ _ H).
+    - intros d w s es r0 H. cbn [pelems] in H |- *.
+      destruct (pval f d s) as [[c r1]|] eqn:Ev; [|discriminate]. rewrite (IHv _ _ _ _ Ev).
+      destruct (split_ws r1) as [wa r2] eqn:Ew. rewrite (split_ws_ext _ _ _ Ew).
+      destruct (tk r2) as [t r3] eqn:Et. destruct t; try discriminate; rewrite (tk_ext _ _ _ Et) by discriminate.
+      + injection H as <- <-. reflexivity.
+      + destruct (split_ws r3) as [wb r4] eqn:Ew2. rewrite (split_ws_ext _ _ _ Ew2).
+        destruct (pelems f d wb r4) as [[es' r5]|] eqn:Ee; [|discriminate]. injection H as <- <-.
+        rewrite (IHe _ _ _ _ _ Ee). reflexivity.
+    - intros d w s ms r0 H. cbn [pmems] in H |- *.
+      destruct (tk s) as [t s0] eqn:Et0. destruct t; try discriminate. rewrite (tk_ext _ _ _ Et0) by discriminate.
+      destruct (pstr s0) as [[k r1]|] eqn:Ep; [|discriminate]. rewrite (pstr_ext _ _ _ r Ep).
+      destruct (split_ws r1) as [wc r2] eqn:Ew1. rewrite (split_ws_ext _ _ _ Ew1).
+      destruct (tk r2) as [t r3] eqn:Et2. destruct t; try discriminate. rewrite (tk_ext _ _ _ Et2) by discriminate.
+      destruct (split_ws r3) as [wv r4] eqn:Ew3. rewrite (split_ws_ext _ _ _ Ew3).
+      destruct (pval f d r4) as [[c r5]|] eqn:Ev; [|discriminate]. rewrite (IHv _ _ _ _ Ev).
+      destruct (split_ws r5) as [wa r6] eqn:Ew5. rewrite (split_ws_ext _ _ _ Ew5).
+      destruct (tk r6) as [t r7] eqn:Et6. destruct t; try discriminate; rewrite (tk_ext _ _ _ Et6) by discriminate.
+      + injection H as <- <-. reflexivity.
+      + destruct (split_ws r7) as [wb r8] eqn:Ew7. rewrite (split_ws_ext _ _ _ Ew7).
+        destruct (pmems f d wb r8) as [[ms' r9]|] eqn:Em; [|discriminate]. injection H as <- <-.
+        rewrite (IHm _ _ _ _ _ Em). reflexivity.
+  Qed.
+
+  (* prefix extension *)
+  Lemma PV_ext d s c r0 : PV d s c r0 -> PV d (s ++ r) c (r0 ++ r).
+  Proof.
+    intros H. apply (pval_PV (2 * length s)). apply (proj1 (parser_ext _)). apply H; [lia | lia].
+  Qed.
+End Ext.
